@@ -42,7 +42,7 @@ def run_raire(case, earlier_search=False):
     # the reported winner is the function's `winner` argument; the Contest object may carry another (e.g. stale) value
     attr_winner = case["winner"] if len(case["ballots"]) % 3 else case["cands"][0]
     contest = RContest(case.get("contest_name", "c"), list(case["cands"]), attr_winner, total_ballots(case), order=case["order_hint"] or [])
-    f = getattr(sample_estimator, case["asn"])
+    f = si.difficulty(case["asn"])
     if earlier_search:
         # the same Contest object and CVR mapping were searched before with the other difficulty function
         other = sample_estimator.cp_estimate if case["asn"] == "bp_estimate" else sample_estimator.bp_estimate
